@@ -98,7 +98,7 @@ _ANCHOR_HELPER = dict(src=SR, path='impl YamlSerializer/fn write_anchor_for_comp
              ('assumed:layout_hints_are_not_touched', '''final(self).pending_anchor_id is None && final(self).pending_inline_map == old(self).pending_inline_map
                     && final(self).after_dash_depth == old(self).after_dash_depth && final(self).current_map_depth == old(self).current_map_depth
                     && final(self).depth == old(self).depth && final(self).compact_list_indent == old(self).compact_list_indent
-                    && final(self).last_value_was_block == old(self).last_value_was_block''')])
+                    && final(self).last_value_was_block == old(self).last_value_was_block && final(self).indent_step == old(self).indent_step''')])
 ITEMS += [
     _ANCHOR_HELPER,
     dict(src=SR, path='impl YamlSerializer/fn newline', props=['C20', 'C01'],
@@ -139,11 +139,18 @@ ITEMS += [
          wrapper="fn seq_open_block<'a>(&'a mut self, _len: Option<usize>) -> Result<SeqSer<'a, 'b>, SerError> { {FRAG} }",
          requires=[('assumed:nesting_depth_below_usize_max', '''old(self).depth < usize::MAX && (old(self).after_dash_depth is Some ==> old(self).after_dash_depth->0 < usize::MAX)
                         && (old(self).current_map_depth is Some ==> old(self).current_map_depth->0 < usize::MAX)''')],
-         ensures=[('C20:opening_a_block_sequence_writes_no_line_break_of_its_own_so_an_empty_one_stays_on_the_line_of_its_key', '''r is Ok && old(self).pending_anchor_id is None ==> ({ let q = r->Ok_0;
+         proofs=[dict(before_re=r'Ok\(SeqSer \{', text='''if self.indent_step == 2 { assert(self.indent_step * depth_next == 2 * depth_next) by(nonlinear_arith) requires self.indent_step == 2;
+                      if self.after_dash_depth is Some { let d = self.after_dash_depth->0; assert(self.indent_step * d == 2 * d) by(nonlinear_arith) requires self.indent_step == 2; } }''')],
+         ensures=[('C20:opening_a_block_sequence_writes_no_line_break_of_its_own_so_an_empty_one_stays_on_the_line_of_its_key', '''r is Ok && old(self).pending_anchor_id is None && old(self).pending_space_after_colon ==> ({ let q = r->Ok_0;
                         q.ser.out.text() == old(self).out.text() && q.ser.pending_space_after_colon == old(self).pending_space_after_colon
                         && q.first && !q.flow })'''),
                   ('C12:the_first_item_of_an_anchored_block_sequence_starts_a_line_of_its_own', '''r is Ok && old(self).pending_anchor_id is Some ==> ({ let q = r->Ok_0;
                         q.ser.at_line_start && !q.ser.pending_inline_map && q.first && !q.flow })'''),
+                  # F38: the first dash may stay on the line of an outer dash (two columns right of it) only if that is the column of the following dashes
+                  ('C20:all_dashes_of_a_block_sequence_stand_in_one_column_whatever_the_indent_step',
+                   '''r is Ok && !old(self).at_line_start && old(self).after_dash_depth is Some && !old(self).pending_space_after_colon && old(self).pending_anchor_id is None
+                        ==> ({ let q = r->Ok_0; q.first && (q.ser.at_line_start && !q.ser.pending_inline_map
+                               || old(self).indent_step * q.depth == old(self).indent_step * old(self).after_dash_depth->0 + 2) })'''),
                   ('C12:items_under_a_dash_are_indented_one_level_deeper_than_that_dash', '''r is Ok && !old(self).at_line_start && old(self).after_dash_depth is Some && !old(self).pending_space_after_colon
                         ==> r->Ok_0.depth == old(self).after_dash_depth->0 + 1''')],
          canaries=['C20:opening_a_block_sequence_writes_no_line_break_of_its_own_so_an_empty_one_stays_on_the_line_of_its_key']),
@@ -367,4 +374,20 @@ ITEMS += [
          ensures=[('C20:a_flow_struct_variant_closes_both_of_its_braces_and_a_block_one_writes_nothing_at_its_end',
                    "r is Ok ==> final(ser).out.text() =~= (if flow { old(ser).out.text().push('}').push('}') } else { old(ser).out.text() })")],
          canaries=['C20:a_flow_struct_variant_closes_both_of_its_braces_and_a_block_one_writes_nothing_at_its_end']),
+]
+
+# ---- F39: the fields of a struct variant that follows a dash start right of the variant name, for every valid indent step ----
+ITEMS += [
+    dict(src=SR, path='impl Serializer for &mut YamlSerializer/fn serialize_struct_variant', id='YamlSerializer::serialize_struct_variant#after_name', props=['C20', 'C12', 'C01'],
+         impl_header="impl<'b> YamlSerializer<'b>",
+         fragment=r'let mut depth_next = self\.depth \+ 1;.*Ok\(StructVariantSer \{[^}]*\}\)', fragment_flags='S',
+         wrapper="fn struct_variant_after_name<'a>(&'a mut self) -> Result<StructVariantSer<'a, 'b>, SerError> { {FRAG} }",
+         requires=[('assumed:valid_options', 'old(self).indent_step >= 1'),
+                   ('assumed:nesting_depth_below_usize_max', 'old(self).depth < usize::MAX - 3 && (old(self).after_dash_depth is Some ==> old(self).after_dash_depth->0 < usize::MAX - 3)')],
+         proofs=[dict(at='start', text="""if self.after_dash_depth is Some { let d = self.after_dash_depth->0 as int; let st = self.indent_step as int;
+                      assert(st * (d + 2) == st * d + 2 * st) by(nonlinear_arith); assert(st * (d + 3) == st * d + 3 * st) by(nonlinear_arith); }""")],
+         ensures=[('C20:fields_of_a_struct_variant_below_a_dash_start_right_of_the_variant_name_for_every_indent_step',
+                   'r is Ok && old(self).after_dash_depth is Some ==> old(self).indent_step * r->Ok_0.depth > old(self).indent_step * old(self).after_dash_depth->0 + 2'),
+                  ('shape', 'r is Ok ==> !r->Ok_0.flow && r->Ok_0.first && r->Ok_0.ser.after_dash_depth is None')],
+         canaries=['C20:fields_of_a_struct_variant_below_a_dash_start_right_of_the_variant_name_for_every_indent_step']),
 ]
